@@ -315,7 +315,7 @@ func c04Generate(rng *rand.Rand) c04Prog {
 
 func checkC04(c *Ctx) error {
 	r := c.R
-	r.Rule = "generated programs over [N]T (N 2-6, all integer element widths) whose index is a literal, a const, a let-bound variable reassigned between uses, assigned in one branch / match arm, loop-carried, incremented, modified through &' or by a closure, computed by index arithmetic or returned by a function, uses at points where no sound analysis knows the index; plus a directed matrix {25 containers that modify the index (also: assignment in one branch and the use in the sibling branch or a later match arm): plain, if/else/else-if, match arm/default, block, &' call, catch handler, closure, inner loops, compound, ++, nestings, assignment in one branch while the other branch leaves by continue/break/return} x {6 use positions: after, loop-carried before/after in while/for, in a later branch, in a later closure} x {modification taken, not taken} x {index known / unknown before the container}; canary locals around the array; reference interpreter with dynamic index semantics. Allowed: compile-time rejection with T0028/T0009 (never for literal/const in-range programs), or output == reference, or a panic exactly where the reference panics. non-trivial = a distinct program whose verdict was decided (accepted-and-equal, or rejected for the permitted reason)"
+	r.Rule = "generated programs over [N]T (N 2-6, all integer element widths) whose index is a literal, a const, a let-bound variable reassigned between uses, assigned in one branch / match arm, loop-carried, incremented, modified through &' or by a closure, computed by index arithmetic or returned by a function, uses at points where no sound analysis knows the index; plus a directed matrix {25 containers that modify the index (also: assignment in one branch and the use in the sibling branch or a later match arm): plain, if/else/else-if, match arm/default, block, &' call, catch handler, closure, inner loops, compound, ++, nestings, assignment in one branch while the other branch leaves by continue/break/return} x {7 use positions: none besides the container's own, after, loop-carried before/after in while/for, in a later branch, in a later closure} x {modification taken, not taken} x {index known / unknown before the container}; canary locals around the array; reference interpreter with dynamic index semantics. Allowed: compile-time rejection with T0028/T0009 (never for literal/const in-range programs), or output == reference, or a panic exactly where the reference panics. non-trivial = a distinct program whose verdict was decided (accepted-and-equal, or rejected for the permitted reason)"
 	r.Assumptions = []string{"a rejection is attributed to the array rule only if every error diagnostic is T0028 or T0009"}
 	n := c.N(60, 1500)
 	runProbes(c, "C04", core.Native)
@@ -395,7 +395,7 @@ func checkC04(c *Ctx) error {
 var c04Containers = []string{"plain", "if-then", "if-else", "else-if", "match-arm", "match-default", "block", "mutref-call", "catch-handler", "closure", "inner-while", "inner-for", "compound", "incdec", "match-in-if", "if-in-match", "if-assign-else-jump", "if-jump-else-assign", "match-assign-default-jump", "match-jump-default-assign", "if-assign-else-use", "if-use-else-assign", "arm-assign-later-arm-use", "arm-assign-default-use", "else-if-assign-else-use"}
 
 // c04Wrappers are the positions of the use relative to the modification.
-var c04Wrappers = []string{"straight-use-after", "while-use-before", "for-use-before", "while-use-after", "use-in-branch-after", "use-in-closure-after"}
+var c04Wrappers = []string{"no-later-use", "straight-use-after", "while-use-before", "for-use-before", "while-use-after", "use-in-branch-after", "use-in-closure-after"}
 
 // c04MatrixProgram builds one directed program: index variable i starts at a known constant, a
 // container modifies it (when the opaque selector is 0), and the array is read through i at a
@@ -518,6 +518,8 @@ func c04MatrixProgram(container, wrapper string, selVal int64, variant int, opaq
 	kInc := &gen.Assign{LHS: k, Op: "=", RHS: &gen.Bin{Op: "+", L: k, R: lit(I32, 1), T: I32}}
 	kLt := &gen.Bin{Op: "<", L: k, R: lit(I32, 2), T: gen.TBool}
 	switch wrapper {
+	case "no-later-use": // the only uses are the ones inside the container itself
+		main = append(main, mod...)
 	case "straight-use-after":
 		if !opaqueInit {
 			main = append(main, readAt(i)...)
@@ -565,6 +567,9 @@ func c04Matrix() []c04Prog {
 	v := 0
 	for _, co := range c04Containers {
 		for _, w := range c04Wrappers {
+			if w == "no-later-use" && !strings.Contains(co, "-use") {
+				continue
+			}
 			if co == "closure" && w == "use-in-closure-after" {
 				continue // two closures capturing one variable: open finding kf-C01-closure-nested (gated feature)
 			}
@@ -574,7 +579,7 @@ func c04Matrix() []c04Prog {
 			}
 			// the same with an index whose value is unknown before the container (only the positions
 			// in which the container itself can make it known)
-			if w == "straight-use-after" || w == "use-in-branch-after" || w == "while-use-after" {
+			if w == "no-later-use" || w == "straight-use-after" || w == "use-in-branch-after" || w == "while-use-after" {
 				for _, s := range []int64{0, 2} {
 					out = append(out, c04MatrixProgram(co, w, s, v, true))
 					v++
